@@ -1,7 +1,7 @@
 import SaModel.Props.C04
 import SaModel.Props.C01Complete
 import SaModel.Lemmas.C04Accept
-import SaModel.Lemmas.C01FinishTraced
+import SaModel.Props.C03Traced
 /-
 C04, the acceptance half: **the schema traced from a type accepts every value of that type**.
 
@@ -13,10 +13,45 @@ tuples / tuple structs / arrays), whatever `Trace.fromType` returns for it
 * represents every well-typed value (`C04_interpRow`),
 
 so, by C01's completeness theorem (`Props.C01.runRows_complete`), every batch of well-typed values whose explicit size
-`Σ vsize (ser t v)` stays within `2^31 - 1` is accepted row by row: `runRows … = ok root`.
+`Σ vsize (ser t v)` stays within `2^31 - 1` is accepted row by row: `runRows … = ok root` — and `build_arrays` cannot refuse
+(`Props.C01.toMarrow_complete`, i.e. `finish_total`; its typing hypothesis `typedFs` holds of every traced schema,
+`Props.C03.fromType_good`), so `to_marrow` succeeds (`C04_accept_partial`).
 -/
 namespace SaModel.Props.C04
 open SaModel SaModel.Build SaModel.Spec SaModel.Roundtrip
+
+/-- the hypotheses of C01's completeness theorems (`runRows_complete`, `toMarrow_complete`) for the schema traced from a
+record type of the fragment and a batch of well-typed values within the capacity bound -/
+theorem accept_hyps (c : Trace.Code) (O : Trace.Options) (ext : Ext) (n : String) (fs : TFields) (vs : List Val)
+    (fields : List Field)
+    (h0 : O.overwrites = []) (hfrag : frag (.struct n fs) = true)
+    (hwt : ∀ v ∈ vs, wt (.struct n fs) v = true)
+    (hft : Trace.fromType c O (toTraceTy (.struct n fs)) = .ok fields)
+    (hcap : ((vs.map (ser (.struct n fs))).map (vsize ext)).sum ≤ 2147483647) :
+    ∃ root0, newRoot fields = .ok root0 ∧ fields.all coveredF = true ∧ totalFs (Fields.ofList fields) = true ∧
+      Lemmas.C03.typedFs (Fields.ofList fields) = true ∧
+      (∀ r ∈ vs.map (ser (.struct n fs)), noRaw r = true ∧ ∃ lv, interpRow ext fields r = .ok lv) ∧
+      ((vs.map (ser (.struct n fs))).map (vsize ext)).sum ≤ room root0 := by
+  let t : Ty := .struct n fs
+  let o := viewOpts O
+  have hn : noEnum t = true := frag_noEnum t hfrag
+  have hroot : mappingRoot o t = some fields := C04_fromType_mapping c O h0 t hn fields hft
+  have hfields : fields = (mappingFields o fs).toList := by
+    simp [t, mappingRoot, mappingDT] at hroot; exact hroot.symm
+  have hofl : Fields.ofList fields = mappingFields o fs := by rw [hfields]; exact Fields.ofList_toList _
+  have hnf : noEnumFields fs = true := by simpa [t, noEnum] using hn
+  have hside := sideFs_toList (mappingFields o fs) (mappingFields_side o fs hnf)
+  rw [← hfields] at hside
+  obtain ⟨root0, hr0, hroom⟩ := newRoot_traced o n fs hfrag
+  rw [← hfields] at hr0
+  refine ⟨root0, hr0, List.all_eq_true.mpr fun f hf => (hside f hf).2, ?_, ?_, ?_, ?_⟩
+  · rw [hofl]; exact (mappingFields_total o fs hnf).1
+  · exact (Props.C03.fromType_good c O _ fields (by rw [h0]; intro kv hkv; cases hkv) hft).2
+  · intro r hr
+    obtain ⟨v, hv, rfl⟩ := List.mem_map.mp hr
+    exact ⟨(ser_ok t v (hwt v hv)).1, lv t v, C04_interpRow_partial ext o n fs v fields (frag_fragE _ hfrag) (hwt v hv)
+      (frag_inScope o _ _ hfrag) hroot⟩
+  · rw [hroom]; exact hcap
 
 /-- **Acceptance, row by row.**  `t = struct n fs` in `frag`, any tracing options without overwrites, any batch of
 well-typed values within the capacity bound: every `push` succeeds, and `to_marrow` is `build_arrays` of the final state.
@@ -31,27 +66,25 @@ theorem C04_accept_rows (c : Trace.Code) (O : Trace.Options) (ext : Ext) (n : St
     (hcap : ((vs.map (ser (.struct n fs))).map (vsize ext)).sum ≤ 2147483647) :
     ∃ root, runRows ext fields (vs.map (ser (.struct n fs))) = .ok root ∧
       toMarrow ext fields (vs.map (ser (.struct n fs))) = (do let (arrs, _) ← buildArrays ext root; pure arrs) := by
-  let t : Ty := .struct n fs
-  let o := viewOpts O
-  have hn : noEnum t = true := frag_noEnum t hfrag
-  have hroot : mappingRoot o t = some fields := C04_fromType_mapping c O h0 t hn fields hft
-  have hfields : fields = (mappingFields o fs).toList := by
-    simp [t, mappingRoot, mappingDT] at hroot; exact hroot.symm
-  have hofl : Fields.ofList fields = mappingFields o fs := by rw [hfields]; exact Fields.ofList_toList _
-  have hnf : noEnumFields fs = true := by simpa [t, noEnum] using hn
-  have hside := sideFs_toList (mappingFields o fs) (mappingFields_side o fs hnf)
-  rw [← hfields] at hside
-  obtain ⟨root0, hr0, hroom⟩ := newRoot_traced o n fs hfrag
-  rw [← hfields] at hr0
-  exact Props.C01.toMarrow_complete_partial ext fields (vs.map (ser t)) root0
-    (List.all_eq_true.mpr fun f hf => (hside f hf).2.2) hr0 (hsafe root0 hr0)
-    (by rw [hofl]; exact (mappingFields_total o fs hnf).1)
-    (by
-      intro r hr
-      obtain ⟨v, hv, rfl⟩ := List.mem_map.mp hr
-      exact ⟨(ser_ok t v (hwt v hv)).1, lv t v, C04_interpRow_partial ext o n fs v fields (frag_fragE _ hfrag) (hwt v hv)
-        (frag_inScope o _ _ hfrag) hroot⟩)
-    (by rw [hroom]; exact hcap)
+  obtain ⟨root0, hr0, hc, htot, _, hrows, hroom⟩ := accept_hyps c O ext n fs vs fields h0 hfrag hwt hft hcap
+  obtain ⟨root, h⟩ := Props.C01.runRows_complete ext fields _ root0 hc hr0 (hsafe root0 hr0) htot hrows hroom
+  exact ⟨root, h, by rw [Props.C03.toMarrow_eq, h]; rfl⟩
+
+/-- **Acceptance, complete**: `to_marrow` SUCCEEDS on every batch of well-typed values of a record type of the fragment
+against the schema traced from the type (any tracing options without overwrites, dictionary-encoded strings included;
+explicit capacity bound).  `build_arrays` cannot refuse (`Props.C01.toMarrow_complete`: `finish_total` on the well-formed
+final state, the typing invariant `typedFs` of the traced schema by `Props.C03.fromType_good`).  `_partial`: `hsafe` is a
+hypothesis (derived in `C04_accept_nodict_partial` when `string_dictionary_encoding` is off) and so is `fromType … = ok`. -/
+theorem C04_accept_partial (c : Trace.Code) (O : Trace.Options) (ext : Ext) (n : String) (fs : TFields) (vs : List Val)
+    (fields : List Field)
+    (h0 : O.overwrites = []) (hfrag : frag (.struct n fs) = true)
+    (hwt : ∀ v ∈ vs, wt (.struct n fs) v = true)
+    (hft : Trace.fromType c O (toTraceTy (.struct n fs)) = .ok fields)
+    (hsafe : ∀ root0, newRoot fields = .ok root0 → Safe root0)
+    (hcap : ((vs.map (ser (.struct n fs))).map (vsize ext)).sum ≤ 2147483647) :
+    ∃ arrs, toMarrow ext fields (vs.map (ser (.struct n fs))) = .ok arrs := by
+  obtain ⟨root0, hr0, hc, htot, htyped, hrows, hroom⟩ := accept_hyps c O ext n fs vs fields h0 hfrag hwt hft hcap
+  exact Props.C01.toMarrow_complete ext fields _ root0 hc hr0 (hsafe root0 hr0) htot htyped hrows hroom
 
 /-- `C04_accept_rows` with `Safe` derived, for tracing options without `string_dictionary_encoding` -/
 theorem C04_accept_rows_nodict (c : Trace.Code) (O : Trace.Options) (ext : Ext) (n : String) (fs : TFields) (vs : List Val)
@@ -69,12 +102,9 @@ theorem C04_accept_rows_nodict (c : Trace.Code) (O : Trace.Options) (ext : Ext) 
   exact C04_accept_rows c O ext n fs vs fields h0 hfrag hwt hft
     (safe_of_traced (viewOpts O) hd fs (by simpa [noEnum] using hn) fields hfields) hcap
 
-/-- **Acceptance, complete, without dictionary encoding**: `to_marrow` SUCCEEDS on every batch of well-typed values of
-a record type of the fragment against the schema traced from the type (`string_dictionary_encoding` off; explicit
-capacity bound).  `build_arrays` cannot refuse: a traced schema of an enum-free type has no FixedSizeBinary /
-FixedSizeList / Dictionary / Union (`finish_total`, `buildArrays_traced` in `Lemmas/C01FinishTraced.lean`, with C03's shape
-invariant `BuiltFor` preserved by `push_takeRest`).  `_partial`: with dictionary encoding on, `hsafe` and the `finish`
-of dictionaries are not derived; `fromType … = ok` is a hypothesis. -/
+/-- **Acceptance, complete, without dictionary encoding**: `C04_accept_partial` with `Safe` derived
+(`safe_of_traced`).  `_partial`: `fromType … = ok` is a hypothesis; with dictionary encoding on, `hsafe` is not derived
+(`C04_accept_partial`). -/
 theorem C04_accept_nodict_partial (c : Trace.Code) (O : Trace.Options) (ext : Ext) (n : String) (fs : TFields) (vs : List Val)
     (fields : List Field)
     (h0 : O.overwrites = []) (hd : O.string_dictionary_encoding = false) (hfrag : frag (.struct n fs) = true)
@@ -82,14 +112,12 @@ theorem C04_accept_nodict_partial (c : Trace.Code) (O : Trace.Options) (ext : Ex
     (hft : Trace.fromType c O (toTraceTy (.struct n fs)) = .ok fields)
     (hcap : ((vs.map (ser (.struct n fs))).map (vsize ext)).sum ≤ 2147483647) :
     ∃ arrs, toMarrow ext fields (vs.map (ser (.struct n fs))) = .ok arrs := by
-  obtain ⟨root, hrun, htm⟩ := C04_accept_rows_nodict c O ext n fs vs fields h0 hd hfrag hwt hft hcap
   have hn : noEnum (.struct n fs) = true := frag_noEnum _ hfrag
   have hroot := C04_fromType_mapping c O h0 _ hn fields hft
   have hfields : fields = (mappingFields (viewOpts O) fs).toList := by
     simp [mappingRoot, mappingDT] at hroot; exact hroot.symm
-  rw [hfields] at hrun
-  obtain ⟨arrs, rest, hba⟩ := buildArrays_traced ext (viewOpts O) hd fs (by simpa [noEnum] using hn) _ root hrun
-  exact ⟨arrs, by rw [htm, hba]; rfl⟩
+  exact C04_accept_partial c O ext n fs vs fields h0 hfrag hwt hft
+    (safe_of_traced (viewOpts O) hd fs (by simpa [noEnum] using hn) fields hfields) hcap
 
 /-- **C04 end to end, without dictionary encoding**: serialization against the traced schema succeeds, and reading
 everything back returns the batch, normalised (`norm` is the identity for `plainOpt` types: `C04_norm_eq_self`).
@@ -127,5 +155,33 @@ example : ∃ arrs, toMarrow {} exFields (exBatch.map (ser exFragRoot)) = .ok ar
       readAll (toTarget exFragRoot) exFields arrs = .ok (exBatch.map fun v => dvalOf exFragRoot (norm exFragRoot v))) :=
   C04_end_to_end_nodict_partial .fixed exO {} "Root" _ exBatch exFields rfl rfl (by decide +kernel) (by simp) (by decide +kernel)
     exExtOK exTrace (by decide +kernel)
+
+/-! non-vacuity of `C04_accept_partial` WITH dictionary-encoded strings: a record type with a `String` and an
+`Option<String>` traces to two `Dictionary(UInt32, LargeUtf8)` columns; `Safe` holds of the fresh root -/
+
+def exDO : Trace.Options := { map_as_struct := false, string_dictionary_encoding := true }
+def exDRoot : Ty := .struct "D" (.cons "s" false (.prim .str) (.cons "t" false (.option (.prim .str)) .nil))
+def exDBatch : List Val :=
+  [.struct (.cons (.str "x") (.cons (.some (.str "y")) .nil)), .struct (.cons (.str "x") (.cons .none .nil))]
+def exDFields : List Field := match Trace.fromType .fixed exDO (toTraceTy exDRoot) with | .ok fs => fs | .error _ => []
+
+theorem exDTrace : Trace.fromType .fixed exDO (toTraceTy exDRoot) = .ok exDFields := by decide +kernel
+
+theorem exDSafe : ∀ root0, newRoot exDFields = .ok root0 → Safe root0 := by
+  intro root0 h0
+  rw [show newRoot exDFields = .ok (.struct "$" 0 none
+    (.cons (.dictionary "$.s" (.leaf "$.s.key" (.int .u32) none []) (.bytes "$.s.value" .largeUtf8 none [0] []) [])
+      ⟨"s", false, []⟩
+      (.cons (.dictionary "$.t" (.leaf "$.t.key" (.int .u32) (some []) []) (.bytes "$.t.value" .largeUtf8 none [0] []) [])
+        ⟨"t", true, []⟩ .nil)) [none, none] 0 [false, false]) from by decide +kernel] at h0
+  cases h0
+  simp [Safe, SafeL, B.isDict]
+
+example : exDFields = [.mk "s" (.dictionary .uint32 .largeUtf8) false [], .mk "t" (.dictionary .uint32 .largeUtf8) true []] := by
+  decide +kernel
+
+example : ∃ arrs, toMarrow {} exDFields (exDBatch.map (ser exDRoot)) = .ok arrs :=
+  C04_accept_partial .fixed exDO {} "D" _ exDBatch exDFields rfl (by decide +kernel) (by decide +kernel) exDTrace exDSafe
+    (by decide +kernel)
 
 end SaModel.Props.C04
